@@ -71,6 +71,12 @@ func Model(g *gen.Generated) (*hs.Trace, bool) {
 	return tr, true
 }
 
+// TooBig: the reference run shows that the program grows data or runs without bound; such
+// programs are not executed at all (they exhaust memory or time, not the property).
+func TooBig(tr *hs.Trace) bool {
+	return tr.Outcome.Class == "fuel" || strings.Contains(tr.Outcome.Message, "too long for the model")
+}
+
 func ExpOf(tr *hs.Trace) *Exp {
 	return &Exp{Writes: tr.Writes, Triggers: tr.Triggers, Outcome: tr.Outcome}
 }
